@@ -1,26 +1,48 @@
 package main
 
 import (
+	"math"
 	"strconv"
 
 	"verifharness/hx"
 )
 
-// history generator: key multisets with heavy duplication (mode div10: ten distinguishable keys compare equal),
-// ascending/descending runs, removal of absent keys, drain to empty and regrowth, probe keys below / between / equal
-// to / above the stored keys, visitors that stop after j visits; histories of 1…400 operations.
+// History generator.
+//
+// Short histories (1…400 operations): key multisets with heavy duplication (order div10: ten distinguishable keys
+// compare equal), ascending/descending runs, keys at the limits of int, removal of absent keys, of the minimum, of the
+// maximum and of the same key twice, drain to empty and regrowth, probe keys below / between / equal to / above the
+// stored keys, visitors that stop after j visits, visitors and compare functions that panic, re-entrant read-only
+// visitors, two trees used alternately (`swap`), Dump.  First/Last/Count are asked after every removal.
+//
+// Long structured histories (400…2000 inserts): zig-zag, back-fill below/above a moving extreme, alternating extremes,
+// interleaved sorted blocks, bit-reversed order, random; with probes at the size thresholds 12, 16/17, 32/33, 64/65,
+// 128/129, 256/257, 512/513, 1000, 1024/1025 and periodic invariant checks, followed by a partial or total drain.
 
 type hist struct {
-	r     *hx.Rng
-	emit  func(string)
-	live  []int // keys inserted and (probably) not yet removed; an approximation is enough
-	seq   int
-	style int
-	next  int // next key of a run
-	lo    int
-	hi    int
-	n     int // lines emitted
+	r      *hx.Rng
+	emit   func(string)
+	live   []int // keys inserted and (probably) not yet removed; an approximation is enough
+	olive  []int // the same for the other tree (see swap)
+	seq    int
+	style  int
+	next   int // next key of a run
+	lo     int
+	hi     int
+	n      int // lines emitted
+	long   bool
+	twoTre bool
 }
+
+var limitKeys = []int{
+	math.MinInt, math.MinInt + 1, math.MinInt + 9, math.MinInt + 10, math.MinInt + 11, -math.MaxInt/2 - 2, -math.MaxInt/2 - 1,
+	-math.MaxInt / 2, -(1 << 32) - 1, -(1 << 32), -(1 << 31) - 1, -(1 << 31), -1001, -1000, -999, -101, -100, -99, -11, -10,
+	-9, -2, -1, 0, 1, 2, 9, 10, 11, 99, 100, 101, 999, 1000, 1001, 1<<31 - 1, 1 << 31, 1<<31 + 1, 1<<32 - 1, 1 << 32,
+	1<<32 + 1, 1<<62 - 1, 1 << 62, 1<<62 + 1, math.MaxInt/2 - 1, math.MaxInt / 2, math.MaxInt/2 + 1, math.MaxInt - 11,
+	math.MaxInt - 10, math.MaxInt - 9, math.MaxInt - 1, math.MaxInt,
+}
+
+var panicKinds = []string{"str", "err", "rt", "nilptr", "nil", "reent"}
 
 func (h *hist) out(s string) {
 	h.emit(s)
@@ -47,6 +69,8 @@ func (h *hist) newKey() int {
 			return 55
 		}
 		return r.Range(50, 59)
+	case 7: // keys at the limits of int and around powers of two and ten
+		return hx.Pick(r, limitKeys)
 	default:
 		return r.Range(h.lo, h.hi)
 	}
@@ -58,7 +82,7 @@ func (h *hist) probeKey() int {
 		k := hx.Pick(r, h.live)
 		switch r.Intn(8) {
 		case 0:
-			return k + 1
+			return k + 1 // wraps around at MaxInt: still a valid probe
 		case 1:
 			return k - 1
 		case 2:
@@ -68,6 +92,9 @@ func (h *hist) probeKey() int {
 		default:
 			return k
 		}
+	}
+	if h.style == 7 {
+		return hx.Pick(r, limitKeys)
 	}
 	switch r.Intn(4) {
 	case 0:
@@ -81,21 +108,31 @@ func (h *hist) probeKey() int {
 
 func (h *hist) limit() int {
 	r := h.r
+	big := 100000
+	if len(h.live) > 200 && r.Chance(9, 10) { // keep the output of long histories small
+		big = r.Range(1, 12)
+	}
 	switch r.Intn(6) {
 	case 0:
 		return 1
 	case 1:
 		return r.Range(0, 3)
 	case 2, 3:
-		return r.Range(1, len(h.live)+2)
+		return min(r.Range(1, len(h.live)+2), max(big, 12))
 	default:
-		return 100000
+		return big
 	}
 }
 
-func (h *hist) insert() {
-	k := h.newKey()
+func (h *hist) value() int {
 	h.seq++
+	if h.r.Chance(1, 40) { // values at the limits as well
+		return hx.Pick(h.r, []int{math.MaxInt, math.MinInt, 0, -1, math.MaxInt - h.seq, math.MinInt + h.seq})
+	}
+	return h.seq
+}
+
+func (h *hist) noteKey(k int) {
 	h.live = append(h.live, k)
 	if k < h.lo {
 		h.lo = k
@@ -103,45 +140,105 @@ func (h *hist) insert() {
 	if k > h.hi {
 		h.hi = k
 	}
-	h.out("ins " + strconv.Itoa(k) + " " + strconv.Itoa(h.seq))
-	h.afterMutation()
+}
+
+func (h *hist) insertKey(k int, quiet bool) {
+	if !quiet && h.r.Chance(1, 30) { // compare function panics at its first call: nothing may change
+		h.out("pins " + strconv.Itoa(k) + " " + strconv.Itoa(h.value()))
+		if len(h.live) == 0 {
+			h.noteKey(k)
+		}
+		h.out("count")
+		return
+	}
+	h.noteKey(k)
+	h.out("ins " + strconv.Itoa(k) + " " + strconv.Itoa(h.value()))
+	if !quiet {
+		h.afterMutation(false)
+	}
+}
+
+func (h *hist) insert() { h.insertKey(h.newKey(), false) }
+
+func (h *hist) takeLive(i int) int {
+	k := h.live[i]
+	h.live[i] = h.live[len(h.live)-1]
+	h.live = h.live[:len(h.live)-1]
+	return k
+}
+
+func (h *hist) extreme(maxWanted bool) int {
+	best := 0
+	for i, k := range h.live {
+		if (maxWanted && k > h.live[best]) || (!maxWanted && k < h.live[best]) {
+			best = i
+		}
+	}
+	return best
 }
 
 func (h *hist) remove() {
 	r := h.r
 	var k int
-	if len(h.live) > 0 && r.Chance(4, 5) {
-		i := r.Intn(len(h.live))
-		k = h.live[i]
-		h.live[i] = h.live[len(h.live)-1]
-		h.live = h.live[:len(h.live)-1]
-	} else {
+	twice := false
+	switch {
+	case len(h.live) > 0 && r.Chance(1, 30): // compare panics: nothing may change
+		h.out("prem " + strconv.Itoa(hx.Pick(r, h.live)))
+		h.out("count")
+		return
+	case len(h.live) > 0 && r.Chance(1, 10): // the minimum
+		k = h.takeLive(h.extreme(false))
+	case len(h.live) > 0 && r.Chance(1, 10): // the maximum
+		k = h.takeLive(h.extreme(true))
+	case len(h.live) > 0 && r.Chance(4, 5):
+		k = h.takeLive(r.Intn(len(h.live)))
+		twice = r.Chance(1, 12)
+	default:
 		k = h.probeKey() // often absent
 	}
 	h.out("rem " + strconv.Itoa(k))
-	h.afterMutation()
+	h.afterMutation(true)
+	if r.Chance(1, 3) {
+		h.out("get " + strconv.Itoa(k)) // the removed key: another duplicate, or gone
+	}
+	if twice { // the same key again (absent now unless it was duplicated)
+		h.out("rem " + strconv.Itoa(k))
+		h.afterMutation(true)
+	}
 }
 
-func (h *hist) afterMutation() {
+func (h *hist) afterMutation(removal bool) {
 	r := h.r
 	sz := len(h.live)
-	if sz <= 10 || r.Chance(1, 3) {
+	if removal || r.Chance(1, 3) { // First/Last/Count after every removal shape (stale caches), often after inserts
+		h.out("first")
+		h.out("last")
+	}
+	if removal || r.Chance(1, 8) {
+		h.out("count")
+	}
+	if sz <= 10 || r.Chance(1, 3) && sz <= 300 || r.Chance(1, 60) {
 		h.out("dump")
 	}
-	if sz <= 10 || r.Chance(1, 4) {
+	if sz <= 10 || r.Chance(1, 4) && sz <= 300 || r.Chance(1, 40) {
 		h.out("inv")
-	}
-	if r.Chance(1, 8) {
-		h.out("count")
 	}
 	if r.Chance(1, 2) {
 		h.query()
+	}
+	if h.twoTre && r.Chance(1, 6) {
+		h.out("swap")
+		h.live, h.olive = h.olive, h.live
+		if r.Chance(1, 2) {
+			h.out("count")
+			h.out("first")
+		}
 	}
 }
 
 func (h *hist) query() {
 	r := h.r
-	switch r.Intn(12) {
+	switch r.Intn(16) {
 	case 0:
 		h.out("first")
 	case 1:
@@ -156,19 +253,48 @@ func (h *hist) query() {
 		h.out("travfrom " + strconv.Itoa(h.probeKey()) + " " + strconv.Itoa(h.limit()))
 	case 7, 8:
 		h.out("rtravfrom " + strconv.Itoa(h.probeKey()) + " " + strconv.Itoa(h.limit()))
+	case 9: // visitor that panics at its j-th visit (or re-enters the tree read-only); the tree must stay usable
+		j, kind := strconv.Itoa(r.Range(1, min(len(h.live), 40)+1)), hx.Pick(r, panicKinds)
+		switch r.Intn(4) {
+		case 0:
+			h.out("ptrav " + j + " " + kind)
+		case 1:
+			h.out("prtrav " + j + " " + kind)
+		case 2:
+			h.out("ptravfrom " + strconv.Itoa(h.probeKey()) + " " + j + " " + kind)
+		default:
+			h.out("prtravfrom " + strconv.Itoa(h.probeKey()) + " " + j + " " + kind)
+		}
+		if r.Chance(1, 2) {
+			h.out("inv")
+		}
+	case 10:
+		if r.Chance(1, 3) {
+			h.out("pget " + strconv.Itoa(h.probeKey()))
+		} else if len(h.live) <= 150 || r.Chance(1, 10) {
+			h.out("dumpapi")
+		} else {
+			h.out("count")
+		}
 	default:
 		h.out("get " + strconv.Itoa(h.probeKey()))
 	}
 }
 
-func genHistory(r *hx.Rng, emit func(string)) int {
-	h := &hist{r: r, emit: emit}
-	mode := "div10"
+func (h *hist) reset() {
+	r := h.r
+	order := "div10"
 	if r.Chance(3, 10) {
-		mode = "plain"
+		order = "plain"
 	}
-	h.out("reset " + mode)
-	h.style = r.Intn(7)
+	// magnitude of the compare results: the library may only use the sign
+	h.out("reset " + order + " " + hx.Pick(r, []string{"sign", "diff", "diff", "huge", "mixed"}))
+}
+
+func genShort(r *hx.Rng, emit func(string)) int {
+	h := &hist{r: r, emit: emit, twoTre: r.Chance(1, 4)}
+	h.reset()
+	h.style = r.Intn(8)
 	switch h.style {
 	case 0: // tiny range: heavy duplication even in plain mode
 		h.lo, h.hi = 0, r.Range(3, 25)
@@ -181,6 +307,8 @@ func genHistory(r *hx.Rng, emit func(string)) int {
 		h.lo, h.hi = 50, 59
 	case 5:
 		h.lo, h.hi = -1000, 1000
+	case 7:
+		h.lo, h.hi = -1000, 1000 // only used for absent probes; the keys come from limitKeys
 	default: // around zero: truncating division makes -9…9 one bucket
 		h.lo, h.hi = -25, 25
 	}
@@ -231,9 +359,12 @@ func genHistory(r *hx.Rng, emit func(string)) int {
 					h.out("first")
 					h.out("last")
 					h.out("trav 5")
+					h.out("ptrav 1 str")
 					h.out("rtravfrom " + strconv.Itoa(h.probeKey()) + " 5")
 					h.out("get " + strconv.Itoa(h.probeKey()))
+					h.out("pget " + strconv.Itoa(h.probeKey()))
 					h.out("rem " + strconv.Itoa(h.probeKey()))
+					h.out("dumpapi")
 					phase, phaseLeft = 0, r.Range(1, length/3+1)
 				}
 			default:
@@ -244,8 +375,168 @@ func genHistory(r *hx.Rng, emit func(string)) int {
 	return h.n
 }
 
+// longKeys produces the key sequence of a long structured history.
+func longKeys(r *hx.Rng, n int) []int {
+	keys := make([]int, 0, n)
+	step := r.Range(1, 3) * hx.Pick(r, []int{1, 1, 5, 10})
+	switch r.Intn(9) {
+	case 0: // zig-zag from the outside in: 0, N, 1, N-1, …
+		for i := 0; len(keys) < n; i++ {
+			keys = append(keys, i*step, (n-i)*step)
+		}
+	case 1: // alternating extremes from the inside out: 0, 1, -1, 2, -2, …
+		for i := 1; len(keys) < n; i++ {
+			keys = append(keys, i*step, -i*step)
+		}
+	case 2: // descending run, every third insert back-fills a gap just above the current minimum
+		for i := 0; len(keys) < n; i++ {
+			keys = append(keys, -2*i*step)
+			if i >= 6 && i%2 == 0 {
+				keys = append(keys, -2*i*step+3*step)
+			}
+		}
+	case 3: // the mirror image: ascending run, back-fill just below the current maximum
+		for i := 0; len(keys) < n; i++ {
+			keys = append(keys, 2*i*step)
+			if i >= 6 && i%2 == 0 {
+				keys = append(keys, 2*i*step-3*step)
+			}
+		}
+	case 4: // back-fill with a random period and a random distance from the moving extreme
+		period, dist, dir := r.Range(2, 7), r.Range(1, 9), hx.Pick(r, []int{-1, 1})
+		for i := 0; len(keys) < n; i++ {
+			keys = append(keys, dir*4*i*step)
+			if i%period == period-1 {
+				keys = append(keys, dir*(4*i-2*dist-1)*step)
+			}
+		}
+	case 5: // sorted blocks interleaved: round robin over several ascending (or descending) runs far apart
+		blocks, blockLen := r.Range(2, 9), r.Range(1, 33)
+		pos := make([]int, blocks)
+		for len(keys) < n {
+			b := r.Intn(blocks)
+			dir := 1
+			if b%2 == 1 {
+				dir = -1
+			}
+			for j := 0; j < blockLen; j++ {
+				keys = append(keys, b*100000+dir*pos[b]*step)
+				pos[b]++
+			}
+		}
+	case 6: // bit-reversed order (a perfectly "balanced" arrival order)
+		bitsN := 1
+		for 1<<bitsN < n {
+			bitsN++
+		}
+		for i := 0; len(keys) < n; i++ {
+			v := 0
+			for b := 0; b < bitsN; b++ {
+				if i&(1<<b) != 0 {
+					v |= 1 << (bitsN - 1 - b)
+				}
+			}
+			keys = append(keys, v*step)
+		}
+	case 7: // plain ascending or descending run
+		dir := hx.Pick(r, []int{-1, 1})
+		for i := 0; len(keys) < n; i++ {
+			keys = append(keys, dir*i*step)
+		}
+	default: // uniformly random, moderate duplication
+		for len(keys) < n {
+			keys = append(keys, r.Range(-2*n, 2*n))
+		}
+	}
+	return keys[:n]
+}
+
+var thresholds = map[int]bool{12: true, 16: true, 17: true, 32: true, 33: true, 64: true, 65: true, 128: true, 129: true,
+	256: true, 257: true, 512: true, 513: true, 1000: true, 1024: true, 1025: true, 2000: true}
+
+// probes emits cheap observations of a big tree: the ends, the invariants, lookups of the extreme and of random keys
+// (each judged against the comparison bound, so that a degenerate tree is reported at once).
+func (h *hist) probes(full bool) {
+	r := h.r
+	h.out("inv")
+	h.out("count")
+	h.out("first")
+	h.out("last")
+	if len(h.live) > 0 {
+		h.out("get " + strconv.Itoa(h.live[h.extreme(false)]))
+		h.out("get " + strconv.Itoa(h.live[h.extreme(true)]))
+		for i := 0; i < 4; i++ {
+			h.out("get " + strconv.Itoa(hx.Pick(r, h.live)))
+		}
+	}
+	h.out("travfrom " + strconv.Itoa(h.probeKey()) + " " + strconv.Itoa(r.Range(1, 8)))
+	h.out("rtravfrom " + strconv.Itoa(h.probeKey()) + " " + strconv.Itoa(r.Range(1, 8)))
+	if full {
+		h.out("dump")
+		h.out("trav 100000")
+		h.out("rtrav " + strconv.Itoa(r.Range(1, 20)))
+		h.out("ptrav " + strconv.Itoa(r.Range(1, len(h.live)+1)) + " " + hx.Pick(r, panicKinds))
+		if len(h.live) <= 300 {
+			h.out("dumpapi")
+		}
+	}
+}
+
+func genLong(r *hx.Rng, emit func(string)) int {
+	h := &hist{r: r, emit: emit, long: true, style: 5}
+	h.reset()
+	n := r.Range(400, 2000)
+	if r.Chance(1, 3) {
+		n = r.Range(400, 700)
+	}
+	every := r.Range(40, 120)
+	for i, k := range longKeys(r, n) {
+		h.insertKey(k, true)
+		sz := i + 1
+		if thresholds[sz] {
+			h.probes(sz <= 129 || r.Chance(1, 4))
+		} else if sz%every == 0 {
+			h.probes(false)
+		} else if r.Chance(1, 25) {
+			h.query()
+		}
+	}
+	h.probes(true)
+	// drain: a random part, or everything, in random / ascending / descending key order, with the ends after each removal
+	want := hx.Pick(r, []int{0, n / 4, n / 2, n - 20, n})
+	order := r.Intn(3)
+	for removed := 0; removed < want && len(h.live) > 0; removed++ {
+		var k int
+		switch order {
+		case 0:
+			k = h.takeLive(r.Intn(len(h.live)))
+		case 1:
+			k = h.takeLive(h.extreme(false))
+		default:
+			k = h.takeLive(h.extreme(true))
+		}
+		h.out("rem " + strconv.Itoa(k))
+		h.out("first")
+		h.out("last")
+		if removed%every == 0 || thresholds[len(h.live)] {
+			h.probes(false)
+		}
+	}
+	h.probes(len(h.live) <= 300)
+	// regrow a little
+	for i := 0; i < 30; i++ {
+		h.insertKey(r.Range(-50, 50), true)
+	}
+	h.probes(false)
+	return h.n
+}
+
 func (a *area) Gen(r *hx.Rng, n int, _ string, emit func(string)) {
 	for total := 0; total < n; {
-		total += genHistory(r.Fork(), emit)
+		if r.Chance(1, 20) {
+			total += genLong(r.Fork(), emit)
+		} else {
+			total += genShort(r.Fork(), emit)
+		}
 	}
 }
